@@ -151,6 +151,7 @@ func init() {
 			codecAgreement(r, "C13.3", "channels/internal/migrations", "ChannelStateV2")
 			c13Versioned(r)
 			c13Ready(r)
+			c13NilStages(r)
 		})
 }
 
@@ -345,5 +346,46 @@ func c13Ready(r *R) {
 			}
 		}
 		r.c.Floor("C13.5", n, 1, "listener calls in readyDispatcher")
+	}
+}
+
+// c13NilStages (C13.6): a migrated record may have no stage log (the field is
+// optional in version 2 and copied as is); the first event on such a channel
+// calls the stage-log methods on a nil receiver. Every use of the receiver in
+// those methods must come after the receiver was found non-nil.
+func c13NilStages(r *R) {
+	n := 0
+	for _, name := range []string{"AddLog", "GetStage"} {
+		fn := r.fn("C13.6", "", "ChannelStages", name)
+		if fn == nil || len(fn.Params) == 0 {
+			continue
+		}
+		recv := fn.Params[0]
+		bad := ""
+		var site ssa.Instruction
+		for _, b := range fn.Blocks {
+			for _, ins := range b.Instrs {
+				fa, ok := ins.(*ssa.FieldAddr)
+				if !ok || fa.X != recv {
+					continue
+				}
+				n++
+				if !core.HasAtom(r.p.AtomsAtInstr(fa), core.ParseAtom("-"+r.d.Of(recv)+"==nil")) && bad == "" {
+					bad = "the receiver is dereferenced without having been found non-nil"
+					site = fa
+				}
+			}
+		}
+		pos := r.p.Pos(fn.Pos())
+		if site != nil {
+			pos = r.p.InstrPos(site)
+		}
+		r.c.Check(bad == "", "C13.6", "nil-stage-log:"+name, pos, "tolerates a channel without a stage log", "ChannelStages."+name+": "+bad+" — the first event on a migrated channel without a stage log panics")
+	}
+	r.c.Floor("C13.6", n, 2, "receiver uses in the stage-log methods")
+	// the record's own AddLog goes through them
+	al := r.fn("C13.6", "channels/internal", "ChannelState", "AddLog")
+	if al != nil {
+		r.one("C13.6", al, "(*datatransfer.ChannelStages).AddLog")
 	}
 }
